@@ -193,6 +193,9 @@ def helper_shape(fx, path):
                 continue
             if arg[0] == "call" and arg[1] == "std::ops::Index::index":
                 arg = ("index",) + tuple(arg[2])
+            # `ZEROS.split_at(n).0` is `ZEROS[..n]`
+            if arg[0] == "field" and arg[2] == "0" and arg[1][0] == "call" and arg[1][1].endswith("split_at") and len(arg[1][2]) == 2:
+                arg = ("index", arg[1][2][0], ("adt", "RangeTo", "RangeTo", (("end", arg[1][2][1]),)))
             if arg[0] == "index" and arg[1][0] == "const" and arg[2][0] == "adt" and arg[2][2] == "RangeTo":
                 zeros = arg[1][2] or ""
                 m = re.match(r'^\*?b"((\\x00)+)"$', zeros)
